@@ -96,7 +96,7 @@ def run(ctx):
     n_corpus = len(items)
 
     g = sa.Gen(rng, max_depth=4, size=7, flush_p=0.25)
-    n_prog = 110 if quick else 1100
+    n_prog = 170 if quick else 1500
     kinds = {}
     depths = {}
     for _ in range(n_prog):
